@@ -139,8 +139,9 @@ TEXT['C04'] = dict(
          '"holds field G in layout L" or garbage); the layout manager is used only through the contract of transpose. Bounded part: '
          'exhaustive short and random long sequences on the real class under simulated MPI.',
     note=PROOF_NOTE + 'Assumed here: the contract of LayoutHandler/LayoutSwapper.transpose (its dispatch and redirect logic is proved in '
-         'C01/C03, the single-step transposes are covered by bounded stand-ins); Grid.__init__ establishing the invariant and writes '
-         'through getAllData() are covered by the bounded part only.',
+         'C01/C03). Grid.__init__ is verified to establish the structural part of the invariant (distinct buffers of the handler\'s '
+         'bufferSize, distinct in-range buffer roles, visible block = view of the data buffer, the named layout object, nothing '
+         'saved), with and without save memory; writes through getAllData() are covered by the bounded part only.',
     technique='inductive class invariant with ghost state over opaque buffers, modular use of the transpose contract, z3')
 TEXT['C06'] = dict(
     category='other',
